@@ -104,7 +104,12 @@ def directed_plans(tier):
                       'result': {'routine': 'eval_fixed', 'models': (['fixed', 'weighted', 'select', 'interpolate'] * 3)[:n_models], 'method': 'cosine', 'N': 3},
                       'ops': [{'op': 'save', 't': 0, 'target': 'path', 'ft': 'hdf5', 'overwrite': False, 'fault': None, 'crash': False, 'p': 0},
                               {'op': 'load', 'p': 0, 'via': 'path'}]})
-    return plans + plans_big
+    # one object with a matrix above 16 MiB (sizes at which readers / writers go block-wise), once per file type and route
+    plans_huge = [{'kind': 'rdms', 'family': fam, 'pre_ops': [], 'decorate': [], 'dec_seed': 1, 'huge': True,
+                   'ops': [{'op': 'save', 't': -1, 'target': target, 'ft': ft, 'overwrite': False, 'fault': None, 'crash': False, 'p': 0},
+                           {'op': 'load', 'p': 0, 'via': 'path' if target == 'path' else 'handle'}]}
+                  for ft, target in (('hdf5', 'path'), ('hdf5', 'handle'), ('pkl', 'path'))]
+    return plans + plans_big + plans_huge
 
 
 def summarize(plan):
@@ -129,6 +134,10 @@ def shrink_candidates(plan):
 
 # ------------------------------------------------------------------------------------------- C16 equality
 def nv(v):
+    if isinstance(v, np.ndarray) and v.size > 4096 and v.dtype.kind in 'fiub':
+        # large numeric arrays: shape and a digest of the values as float64 (layout, byte order and integer width aside)
+        import hashlib
+        return {'__array__': [list(v.shape), hashlib.sha1(np.ascontiguousarray(v, dtype=np.float64).tobytes()).hexdigest()]}
     if isinstance(v, np.ndarray):
         return [nv(x) for x in v.tolist()] if v.ndim else nv(v.item())
     if isinstance(v, np.generic):
@@ -323,6 +332,8 @@ def _decorate(obj, plan, kind):
         o.descriptors['bigmat_f'] = np.asfortranarray(np.arange(400 * 420, dtype=float).reshape(400, 420) * 0.5)
         o.descriptors['bigmat_t'] = np.arange(380 * 410, dtype=float).reshape(380, 410).T
         o.descriptors['log'] = ('schritt ü %d; ' % (plan['dec_seed'] % 97)) * 5200          # > 64 KiB of text
+    if plan.get('huge'):
+        o.descriptors['hugemat'] = np.arange(2100 * 1001, dtype=float).reshape(2100, 1001) * 0.25      # 16.8 MB, 2100 rows
     if 'blanks' in dec:
         # white space is part of a label: 'face ' and 'face' are different conditions
         ws = ['face', 'face ', ' face', 'face\t', 'fa ce', 'face\u3000', 'face\n']
@@ -434,7 +445,7 @@ def execute(plan, ctx):
                 ctx.probe('result_construction_failed')
                 return
             objs = [pool.add(res, 'result', None, plan['result']['routine'], [])]
-    if plan['decorate'] and kind in ('rdms', 'data') and objs:
+    if (plan['decorate'] or plan.get('big') or plan.get('huge')) and kind in ('rdms', 'data') and objs:
         try:
             d = _decorate(objs[-1].obj, plan, kind)
         except Exception as e:
